@@ -252,19 +252,27 @@ Stored(ns) == {Entry(ns.log[i]) : i \in DOMAIN ns.log}
 \*   missing     {<<n, e>>} : n became Leader while its log lacked the leader-committed entry e         (C29)
 \*   trig        known-defect triggers seen so far (see the operators below); a property violation in a behaviour
 \*               whose trigger set is empty is NOT explained by a listed finding
+\*   taint       entries a listed defect can make disagree: entries a leader committed by the D13 rule without a real
+\*               majority (or of an older term), and the entries below the one a follower accepted without previous-entry
+\*               check (D13b); taint travels with the entry wherever it is replicated
+\*   lcx         a later leader lacked a leader-committed entry while a trigger had been seen (everything after that is
+\*               a consequence of the listed defect)
 InitHist == [leaders |-> {<<n, InitNode(n).term>> : n \in {m \in Node : InitNode(m).st = "Leader"}},
-             ec |-> [n \in Node |-> {}], mlc |-> [n \in Node |-> 0], lcommitted |-> {}, missing |-> {}, trig |-> {}]
+             ec |-> [n \in Node |-> {}], mlc |-> [n \in Node |-> 0], lcommitted |-> {}, missing |-> {}, trig |-> {},
+             taint |-> {}, lcx |-> FALSE]
 
 \* D13b (no previous-entry check): a follower stored the entry e received from a leader although the entry
 \* before e in the follower's log is not the entry before e in the log of a node that also holds e
 EntriesAt(ns, i) == {x \in Stored(ns) : x.idx = i}
 LastRec(ns) == ns.log[Len(ns.log)]
-PrevEntryMismatch(old, new) ==
-  \E n \in Node :
+PrevEntryMismatchAt(n, old, new) ==
     /\ new[n].st = "Follower" /\ new[n].log # old[n].log /\ new[n].log # <<>>
     /\ LET e == LastRec(new[n]) IN
        /\ ~e.com /\ e.idx > 1 /\ Entry(e) \notin Stored(old[n])
        /\ \E m \in Node \ {n} : Entry(e) \in Stored(new[m]) /\ EntriesAt(new[m], e.idx - 1) # EntriesAt(new[n], e.idx - 1)
+PrevEntryMismatch(old, new) == \E n \in Node : PrevEntryMismatchAt(n, old, new)
+PrevTainted(old, new) ==
+  UNION {IF PrevEntryMismatchAt(n, old, new) THEN {x \in Stored(new[n]) : x.idx < LastRec(new[n]).idx} ELSE {} : n \in Node}
 \* D13 (commit rule): a leader whose per-peer view counts a proper majority at an index (the arithmetic is right)
 \* marks an entry committed that is in fact stored on fewer nodes - it believed a peer held what its own REQUEST
 \* carried - or marks an entry of an older term than its own
@@ -275,6 +283,11 @@ CommitWithoutMajority(old, new) ==
          /\ Cardinality({p \in Node : new[n].view[p].li >= e.idx}) >= Quorum + 1
          /\ \/ Cardinality({m \in Node : e \in Stored(new[m])}) < Quorum + 1
             \/ e.term < new[n].term
+BadCommitted(old, new) ==
+  UNION {{e \in Committed(new[n]) \ Committed(old[n]) :
+            /\ Cardinality({p \in Node : new[n].view[p].li >= e.idx}) >= Quorum + 1
+            /\ \/ Cardinality({m \in Node : e \in Stored(new[m])}) < Quorum + 1
+               \/ e.term < new[n].term} : n \in {m \in Node : old[m].st = "Leader"}}
 \* D13c (check-then-act): Cluster::append ran on a node that is not the leader
 AppendAtNonLeader(old, new) ==
   \E n \in Node : old[n].st # "Leader" /\ Local(new[n]).li = Local(old[n]).li + 1 /\ new[n].st = old[n].st
@@ -292,6 +305,10 @@ HistNext(h, old, new) ==
    mlc |-> [n \in Node |-> Max2(h.mlc[n], Local(new[n]).lc)],
    lcommitted |-> lc2,
    trig |-> h.trig \cup Triggers(old, new),
+   taint |-> h.taint \cup BadCommitted(old, new) \cup PrevTainted(old, new),
+   lcx |-> h.lcx \/ (h.trig \cup Triggers(old, new) # {}
+                      /\ \E p \in {m \in Node : old[m].st # "Leader" /\ new[m].st = "Leader"} \X h.lcommitted :
+                            p[2] \notin Stored(new[p[1]])),
    missing |-> h.missing \cup {p \in {m \in Node : old[m].st # "Leader" /\ new[m].st = "Leader"} \X h.lcommitted :
                                  p[2] \notin Stored(new[p[1]])}]
 
@@ -306,4 +323,17 @@ CommitStableP(h, nodes) == \A n \in Node : h.ec[n] \subseteq Committed(nodes[n])
 CommitMonotoneP(h, nodes) == \A n \in Node : Local(nodes[n]).lc >= h.mlc[n]
 \* C29  every later leader holds every entry a leader committed
 LeaderCompletenessP(h) == h.missing = {}
+
+\* Which listed triggers EXPLAIN a violation (used for the KNOWN-FINDING signatures of executions of the real code): for the
+\* two properties that name entries, the triggers count only when every disagreeing / lost entry is one a listed defect can
+\* affect (tainted), or a later leader already lacked a committed entry because of one; otherwise the violation has another
+\* cause and is reported with an empty trigger set.
+CAExplained(h, nodes) ==
+  \A a, b \in Node : \A x \in Committed(nodes[a]), y \in Committed(nodes[b]) :
+     (x.idx = y.idx /\ x # y) => (x \in h.taint \/ y \in h.taint \/ h.lcx)
+CSExplained(h, nodes) == \A n \in Node : \A x \in h.ec[n] \ Committed(nodes[n]) : x \in h.taint \/ h.lcx
+TrigFor(name, h, nodes) ==
+  IF name = "CommitAgreement" /\ ~CAExplained(h, nodes) THEN {}
+  ELSE IF name = "CommitStable" /\ ~CSExplained(h, nodes) THEN {}
+  ELSE h.trig
 =============================================================================
